@@ -6,7 +6,7 @@
 (* <<property id, predicate name>>.                                         *)
 (***************************************************************************)
 EXTENDS Naturals, Integers, Sequences, FiniteSets, SequencesExt,
-        FiniteSetsExt, Functions, TLC, Text, Vlq, SMap, Sem, Attr, Compose, Rope, EncM
+        FiniteSetsExt, Functions, TLC, Text, Vlq, SMap, Sem, Attr, Compose, Rope, EncM, SplitM
 
 NREG == 16
 EmptyHeap == [i \in 0..(NREG - 1) |-> Nil]
@@ -675,7 +675,10 @@ Checks(r, st) ==
               \cup (IF dom THEN {<<"C11", "announce_before_use">>} ELSE {})
               \cup (LET t == TreeOf(r, st)
                     IN IF IsMapLeaf(t) /\ IsAscii(t.b) /\ MapFitsText(LeafMap(t), t.b)
-                         THEN {<<"C08", "declared_tables">>,
+                         THEN (IF r.columns /\ ~r.final
+                                 THEN {<<"DRIFT", "sms_stream_follows_SplitM">>} ELSE {})
+                              \cup
+                              {<<"C08", "declared_tables">>,
                                IF r.columns
                                  THEN (IF r.final THEN <<"C08", "final_columns">>
                                                   ELSE <<"C08", "stream_columns">>)
@@ -840,6 +843,14 @@ Holds(c, r, st) ==
     [] c = <<"DRIFT", "lines_encoder_follows_EncM">> ->
          LET m == EncodeLinesM(SegsOf(r.segs))
          IN r.out.m = IF m = <<>> THEN <<>> ELSE <<m>>
+    [] c = <<"DRIFT", "sms_stream_follows_SplitM">> ->
+         LET model == SplitFull(t.b, DecodeMappings(LeafMap(t).m))
+             cs == ChunksOf(r)
+         IN /\ Len(cs) = Len(model)
+            /\ \A i \in 1..Len(cs) :
+                 /\ ChunkText(cs[i]) = model[i].x
+                 /\ <<cs[i].gl, cs[i].gc>> = <<model[i].gl, model[i].gc>>
+                 /\ (IF cs[i].o = <<>> THEN <<-1, 0, 0, -1>> ELSE cs[i].o) = RawOf(model[i].s)
     [] c = <<"DRIFT", "schedule_replayed">> ->
          /\ r.outcome = "completed"
          /\ r.schedule_len > 0 => (r.scheduled = r.schedule_len /\ r.extra = 0)
